@@ -5,6 +5,7 @@ import NixModel.Lemmas.C20DelObj
 import NixModel.Store.CopyFrames
 import NixModel.Lemmas.StoreWF
 import NixModel.Lemmas.C20Shallow
+import NixModel.Lemmas.C20Handle
 
 /-!
 # C20 — copies are complete, independent, and keep their internal links
@@ -1342,6 +1343,115 @@ example : ((run copiedFileKeep sourceHistory).links 3, (run copiedFileKeep sourc
     (run copiedFileKeep sourceHistory).links 9, (run copiedFileKeep sourceHistory).links 13,
     (run copiedFileKeep sourceHistory).getAttr 10 "label") =
     ([], [], [("a", 10)], [("id:0", 10)], none) := by decide
+
+/-! ## the source of the copy, given the *handle* the entry point was called with
+
+The theorems above copy the object `obj`. A program calls an entry point with a handle; which object HDF5
+then copies depends on how the entry point names the source (`CallerShape.srcAddr`, read from the source by
+the translator) and - for a path below the handle's parent - on the way the handle was fetched
+(`Store/CopyHandle.lean`). `copy_section` (File / Section) hands HDF5 the object of the handle (repaired in
+/repo: `fix: copy_section … of a Section handle fetched through a link failed or copied another section`),
+so every handle of a section - from the owning container, through `.metadata` (no parent), through
+`Section.link` (the linking section as parent), by search - copies that section. The other six entry
+points name a path below the handle's parent: they copy the handle's object for every handle whose
+parent owns it (`Owned`: so for every entry of every owning container of an API-built file, and nixio
+constructs the handles of link lists, references, positions / extents and feature data with the owning
+block as parent - implementation-side oracle, `handle_catalogue` of harness/props/c20.py). -/
+
+open Nix.Store.CopyShape in
+/-- as the source is written now, both section copies name the source by the object of the handle; the
+other entry points by a path below the handle's parent (an edit that goes back to a path for sections, or
+to anything the translator does not know, breaks this theorem or the translator) -/
+theorem section_copies_address_the_object :
+    Gen.fileCopySection.srcAddr = .object ∧ Gen.sectionCopySection.srcAddr = .object ∧
+    ∀ sh ∈ entryPoints, sh.srcKind ≠ "section" → sh.srcAddr = .parentPath := by decide
+
+open Nix.Store.CopyShape in
+/-- **every entry point, every handle that names its own object**: an entry point called with a handle `h`
+is the entry point on the object `h` stands for - hence the generic routine of `entry_point_source_is_generic`
+with all its consequences - when it addresses the object, or when the handle's parent owns the object -/
+theorem entry_point_handle_is_generic {src dst : Graph} (hdst : FileOk dst) (sh : CallerShape)
+    (hsh : sh ∈ entryPoints) (owner : Nat) (h : Handle) (name : String) (children keepId : Bool)
+    (ho : owner ∈ keys dst) (hid : src.entityId h.obj ≠ none)
+    (hleaf : nodeKind src h.obj ≠ .group → src.links h.obj = [])
+    (hown : sh.srcAddr = .object ∨ Owned src sh.cls h) (hk : kindOf src h.obj = sh.srcKind) :
+    callerByHandle Gen.h5GroupCopy sh src dst owner h name children keepId =
+      match copyGeneric src dst owner sh.cls h.obj name (shallowOf sh children) keepId with
+      | .error e => .error e
+      | .ok (d1, root) =>
+        if sh.readdsProps && !children then
+          (readdProps src keepId (propsOf src h.obj) d1 root).map fun d => (d, root)
+        else .ok (d1, root) := by
+  have hs : sourceOf sh.srcAddr src sh.cls h = some h.obj := by
+    rcases hown with ha | ho'
+    · rw [ha]; rfl
+    · exact sourceOf_owned _ ho'
+  rw [callerByHandle_of_source _ _ _ _ _ _ _ _ _ hs]
+  exact (entry_point_source_is_generic hdst sh hsh owner h.obj name children keepId ho hid hleaf).2 hk
+
+open Nix.Store.CopyShape in
+/-- **section copies: any handle whatsoever** (`_parent` the owning section, none, the linking section, …):
+`File.copy_section` / `Section.copy_section` called with a handle of a section copy the object the handle
+stands for -/
+theorem section_copy_any_handle {src dst : Graph} (hdst : FileOk dst) (sh : CallerShape)
+    (hsh : sh = Gen.fileCopySection ∨ sh = Gen.sectionCopySection) (owner : Nat) (h : Handle) (name : String)
+    (children keepId : Bool) (ho : owner ∈ keys dst) (hid : src.entityId h.obj ≠ none)
+    (hleaf : nodeKind src h.obj ≠ .group → src.links h.obj = []) (hk : kindOf src h.obj = "section") :
+    callerByHandle Gen.h5GroupCopy sh src dst owner h name children keepId =
+      match copyGeneric src dst owner sh.cls h.obj name (!children) keepId with
+      | .error e => .error e
+      | .ok (d1, root) =>
+        if !children then (readdProps src keepId (propsOf src h.obj) d1 root).map fun d => (d, root)
+        else .ok (d1, root) := by
+  have hmem : sh ∈ entryPoints := by rcases hsh with e | e <;> rw [e] <;> decide
+  have hfacts : sh.srcAddr = .object ∧ sh.srcKind = "section" ∧ sh.readdsProps = true ∧
+      shallowOf sh children = !children := by
+    rcases hsh with e | e <;> rw [e] <;> refine ⟨rfl, rfl, rfl, rfl⟩
+  obtain ⟨ha, hkind, hre, hshal⟩ := hfacts
+  rw [entry_point_handle_is_generic hdst sh hmem owner h name children keepId ho hid hleaf (Or.inl ha)
+    (hk.trans hkind.symm), hre, hshal]
+  simp only [Bool.true_and]
+
+open Nix.Store.CopyShape in
+/-- the handle of an entry of an owning container (`file.blocks`, `block.data_arrays / data_frames / tags /
+multi_tags`, `section.sections`, `section.props` …) with the container's owner as parent names its own
+object by the path too: in every file built through the API (`ReachableFresh`) the entry is linked under
+the entity's `name`, and link names are unique -/
+theorem container_handles_owned {g : Graph} (hr : ReachableFresh g) {p c : Nat} {cls : String} {info : CInfo}
+    (hi : containerInfo (okind g p) cls = some info) (hpl : isPlainLike info.flavour = true)
+    (hc : g.child? p cls = some c) {l : String × Nat} (hl : l ∈ g.links c) :
+    Owned g cls ⟨l.2, some p⟩ ∧
+    ∀ a, sourceOf a g cls ⟨l.2, some p⟩ = some l.2 := by
+  have ho := owned_of_wf hr.wf hi hpl hc hl
+  exact ⟨ho, fun a => sourceOf_owned a ho⟩
+
+open Nix.Store.CopyShape in
+/-- **a path below the handle's parent depends on the handle** (the defect repaired in `copy_section`, and the
+class of the seeded changes C20-6 / C20-7): in `pathDemo` the section `t` (3) is reached by three handles. Named
+by the path `sections/<name>` below the handle's parent, the handle from the owning container finds `t`, the
+handle fetched as `u.link` finds *another* section that is merely called the same (6), the handle fetched
+through a `metadata` link finds nothing; named by its object, every handle finds `t` -/
+theorem path_addressing_depends_on_handle :
+    sourceOf .parentPath pathDemo "sections" ownedHandle = some 3 ∧
+    sourceOf .parentPath pathDemo "sections" linkHandle = some 6 ∧
+    sourceOf .parentPath pathDemo "sections" metadataHandle = none ∧
+    (∀ h ∈ [ownedHandle, linkHandle, metadataHandle], sourceOf .object pathDemo "sections" h = some 3) := by
+  decide
+
+open Nix.Store.CopyShape in
+/-- end to end on `pathDemo`: `Section.copy_section` as it is written now, called on the root with the three
+handles of `t` under the new name `y`, makes the same copy of `t` (the definition of the copy is that of `t`);
+the same entry point addressing a path (as it was written before the repair) refuses the metadata handle and
+copies the *other* section for the link handle -/
+example :
+    (∀ h ∈ [ownedHandle, linkHandle, metadataHandle],
+      ((callerByHandle Gen.h5GroupCopy Gen.sectionCopySection pathDemo pathDemo 1 h "y" true true).toOption.map
+        fun r => r.1.getAttr r.2 "definition") = some (some "the linked one")) ∧
+    (callerByHandle Gen.h5GroupCopy { Gen.sectionCopySection with srcAddr := .parentPath } pathDemo pathDemo 1
+        metadataHandle "y" true true).toOption.isSome = false ∧
+    ((callerByHandle Gen.h5GroupCopy { Gen.sectionCopySection with srcAddr := .parentPath } pathDemo pathDemo 1
+        linkHandle "y" true true).toOption.map fun r => r.1.getAttr r.2 "definition") =
+      some (some "another one") := by decide
 
 /-! ### non-vacuity of the source-shape theorems; what a narrower visitor would do -/
 
